@@ -26,10 +26,9 @@ use std::rc::Rc;
 /// Known defects whose trigger the generator avoids (one deterministic witness each is kept, see
 /// `witnesses`).  Remove an entry once the defect is fixed: the cases it masks are then evaluated.
 pub const AVOID_KNOWN: &[&str] = &[
-    "rule_filters_dropped_without_other_property",
-    "rule_skip_files_dropped_without_apply_to_files",
-    "remove_comments_except_not_serialized",
-    "remove_attribute_match_not_serialized",
+    // ("rule_filters_dropped_without_other_property", "rule_skip_files_dropped_without_apply_to_files",
+    //  "remove_comments_except_not_serialized" and "remove_attribute_match_not_serialized" were repaired by
+    //  "fix:" commits in /repo and are exercised again)
     "convert_require_properties_not_serialized",
     // strictness: class:place of corruptions that are known to be accepted
     "nested_unknown_key:generator.retain_lines",
